@@ -287,11 +287,23 @@ def perform (impl : Impl) (w : World) (h : Nat) (op : HOp) : HOut :=
 
 /-- an event of an interleaved history: an operation through a handle that runs to its end (or raises), or one during
 which the process owning the handle dies — after `k` atomic micro-operations of it, optionally `cut` bytes into the next
-write; its handles and its caches are gone, the other processes carry on with what is on disk -/
+write; its handles and its caches are gone, the other processes carry on with what is on disk —, or one that a
+transient I/O fault makes raise (see `faultAtoms` in ForML.Model.Registry) -/
 inductive HEv where
   | run (h : Nat) (op : HOp)
   | die (h : Nat) (op : HOp) (k : Nat) (cut : Option Nat)
+  /-- a transient I/O fault (`OSError` raised once) at the `j`-th atomic micro-operation of the operation: it raises, the
+  process — its handles, its caches — lives on -/
+  | fault (h : Nat) (op : HOp) (j : Nat)
   deriving Repr, Inhabited
+
+/-- the handle after an operation that was hit by a transient fault and raised: the keys it had resolved stay resolved
+(`plan`), nothing was added to what the harness keeps -/
+def faultHandle (fs : Fs) (x : Handle) : HOp → Handle
+  | .publish name v pkg => (plan fs x (.publish name v pkg)).x
+  | .dump sid b => (plan fs x (.dump sid b)).x
+  | .commit => (plan fs x .commit).x
+  | _ => x
 
 def killProc (w : World) (proc : Nat) : World :=
   { w with hs := w.hs.filter (fun e => e.2.proc != proc), tags := w.tags.filter (fun e => e.1 != proc),
@@ -305,6 +317,12 @@ def applyH (impl : Impl) (w : World) : HEv → World
     | some x =>
       let o := perform impl w h op
       killProc { w with fs := (runSome w.fs (crashOps (atomsAll o.calls.flatten) k cut)).1 } x.proc
+  | .fault h op j =>
+    match lookupH w.hs h with
+    | none => w
+    | some x =>
+      let o := perform impl w h op
+      { w with fs := (runSome w.fs (faultAtoms (atomsAll o.calls.flatten) j)).1, hs := setH w.hs h (faultHandle w.fs x op) }
 
 /-- the world after an interleaved history of any number of handles and processes -/
 def playH (impl : Impl) : World → List HEv → World
